@@ -118,7 +118,7 @@ func h03Arg(n int) string {
 // {none, same as first, specials}; mode 1: second child over the whole vocabulary.
 func H03a() {
 	kws := h03Keywords()
-	extra := []string{"zz-unknown", "p:ext", "q:ext", "Name", "Statement", "Parent", "Ext", "Extensions", "Source", "submodule"}
+	extra := []string{"zz-unknown", "p:ext", "q:ext", "Name", "Statement", "Parent", "Ext", "Extensions", "Source", "submodule", ":half", "half:"}
 	vocab := append(append([]string{}, kws...), extra...)
 	P := kws[symChoice(len(kws))]
 	pt := nameMap[P].Elem()
@@ -159,6 +159,10 @@ func H03a() {
 		if r != omit {
 			kids = append(kids, h03Valid(r, "x"))
 		}
+	}
+	// an extension statement whose local name spells the omitted mandatory keyword does not stand in for it
+	if omit != "" && symBool() {
+		kids = append(kids, h03Stmt("zz:"+omit, "x"))
 	}
 	c1 := vocab[symChoice(len(vocab))]
 	var c2 string
